@@ -24,6 +24,7 @@ func init() {
 			{ID: "C02.R1", Title: "decoder.compile has a clause returning a compile function for every kind encoding/json decodes, none for Complex/Chan/UnsafePointer, and falls through to newInvalidDecoder", Covers: "error exactly when encoding/json errors on the destination type", Min: 25, Run: c02r1},
 			{ID: "C02.R2", Title: "for every decoder type constructed only for nilable kinds (derived from compile), the null path of Decode and DecodeStream (in the method or the helper that receives p) stores through the destination pointer", Covers: "null handling agrees with encoding/json for pointers, maps, slices, interfaces", Min: 8, Run: c02r2},
 			{ID: "C02.R3", Title: "numDecoder and Token choose the number representation by s.UseNumber, the empty-interface stream decoder decodes numbers only through numDecoder, and the unknown-key branch of structDecoder.DecodeStream tests s.DisallowUnknownFields before skipValue", Covers: "UseNumber and DisallowUnknownFields keep the agreement", Min: 4, Run: c02r3},
+			{ID: "C02.R4", Title: "in every decoder function that works in an array taken from a sync.Pool, each element slot handed to the element decoder is cleared under a guard equivalent to `callerLen <= idx` (so every slot the caller's elements do not cover is zero, whatever an earlier call left in the array)", Covers: "the result into a zero or shorter destination does not depend on earlier calls (reused pointers and slices)", Min: 2, Run: c02r4},
 			{ID: "C16.R2", Title: "integer range tests per destination kind (shared with C16)", Covers: "numeric range errors agree", Configs: []string{"default"}, Deep: []string{"386"}, Min: 20, Run: c16r2},
 			{ID: "C16.R1", Title: "integer accumulation cannot overflow silently (shared with C16)", Covers: "numeric range errors agree", Min: 2, Run: c16r1},
 			{ID: "C07.R1", Title: "raw stores match the destination's kind (shared with C07)", Covers: "null and scalars leave a well-formed destination", Min: 12, Run: c07r1},
@@ -87,6 +88,7 @@ func init() {
 			{ID: "C07.R1", Title: "for each decoder type D, the kinds D is constructed for are derived from compile's kind switch; every `*(*T)(…p…) = v` store in D's methods has sizeof(T) <= the smallest of those kinds, or is under an isPtrType/Kind() guard", Covers: "null and scalar stores never spill into neighbouring fields or leave a malformed header", Min: 12, Run: c07r1},
 			{ID: "C07.R2", Title: "no fixed-width Go store at an address computed by multiplying with a run-time size field; such elements are written with typedmemmove", Covers: "bytes after a short array keep their contents", Min: 4, Run: c07r2},
 			{ID: "C07.R3", Title: "typedmemmove(T, dst, src): src allocated with unsafe_New(T) of the same T; slice/array decoders take their stride from elemType.Size() of the element type they store", Covers: "moves copy exactly one value of the right type", Min: 8, Run: c07r3},
+			{ID: "C07.R5", Title: "every array obtained from newArray(T, n) is wrapped in a slice header whose cap is n (composite literal, or `h.cap = n` beside `h.data = newArray(T, n)`), so the element loop's capacity test bounds the allocation", Covers: "elements are written only inside the working array", Min: 8, Run: c07r5},
 			{ID: "C16.R4", Title: "numeric store widths equal their kinds (shared with C16)", Covers: "integer and float destinations are written at their own width", Min: 60, Run: c16r4},
 			{ID: "C12.R1", Title: "the caller's input only feeds the private copy (shared with C12)", Covers: "decoding reads only its private copy of the input", Min: 12, Run: c12r1},
 			{ID: "C06.R5", Title: "look-ahead reads stay inside the buffer (shared with C06)", Covers: "no stray reads past the private copy", Min: 25, Run: c06r5},
